@@ -122,7 +122,8 @@ pub fn virtual_limit() -> Option<usize> {
 pub fn grow_should_fail(byte_len: usize, byte_cap: usize) -> bool {
     GROW_ATTEMPTS.fetch_add(1, Ordering::Relaxed);
     let limit = VIRT_LIMIT.load(Ordering::Relaxed);
-    let fail = if limit != 0 && byte_len + 8 > limit.min(byte_cap.max(limit)) && byte_len <= limit {
+    // the virtual limit applies to the heap it lies in: a growth attempt of that heap is the provoked fault
+    let fail = if limit != 0 && limit < byte_cap && byte_len <= limit {
         VIRT_LIMIT.store(0, Ordering::SeqCst);
         true
     } else {
